@@ -339,6 +339,9 @@ func spaces(tier string) []kit.Space {
 			if c.goStmt {
 				opts = &scriggo.BuildOptions{AllowGoStmt: true}
 			}
+			if c.globals != nil {
+				opts = &scriggo.BuildOptions{Globals: c.globals}
+			}
 			o := buildOnceOpts(c.scriggoFiles(), c.entry, c.entry == "", opts)
 			o.Ops = 1
 			return o
